@@ -143,11 +143,15 @@ func (r *Retry) NextCh() <-chan time.Time {
 		r.isReset = false
 		return closedC
 	}
-	r.currentAttempt++
-	if r.opts.MaxRetries > 0 && r.currentAttempt > r.opts.MaxRetries {
+	if r.opts.MaxRetries > 0 && r.currentAttempt >= r.opts.MaxRetries {
+		r.currentAttempt++
 		return nil
 	}
-	return time.After(r.retryIn())
+	// Like Next, compute the wait from the number of retries made so
+	// far, and only then count the new one.
+	ch := time.After(r.retryIn())
+	r.currentAttempt++
+	return ch
 }
 
 // WithMaxAttempts is a helper that runs fn N times and collects the last err.
